@@ -92,7 +92,13 @@ class LibMixin:
         yield st, Sc(z3.Or(*res) if len(res) > 1 else res[0], BOOL)
 
     def bi_cast(self, args, kw, st, frame, node):
-        yield st, args[1]
+        c, v = args[0], args[1]
+        if isinstance(c, ClassV) and isinstance(v, RefV) and c.name in self.ctx.shapes._ids \
+                and c.name in self.ctx.shapes.subclasses(v.t.cls):
+            # typing.cast is unchecked: using the value as the target class fails (AttributeError) otherwise
+            self.pend_raise(st, z3.Not(self.ctx.shapes.isinstance_term(v.term, c.name)), 'AttributeError', frame, node)
+            v = RefV(v.term, ref(c.name), False)
+        yield st, v
 
     def bi_bool(self, args, kw, st, frame, node):
         yield st, Sc(self.truth(args[0], st), BOOL) if args else PyConst(False)
@@ -187,7 +193,9 @@ class LibMixin:
     def to_list(self, v, st, frame, node, order='iter'):
         """snapshot any iterable as a fresh list container."""
         if isinstance(v, Cont) and v.t.kind == 'list':
-            return self.new_cont(v.t, st, self.c_term(v, st))
+            c = self.new_cont(v.t, st, self.c_term(v, st))
+            c.empty_literal = getattr(v, 'empty_literal', False)
+            return c
         if isinstance(v, Cont) and v.t.kind in ('dict', 'set', 'rdict', 'rset'):
             n, arr = self.snapshot_keys(v, st)
             if v.t.kind in ('rdict', 'rset'):
@@ -363,6 +371,7 @@ class LibMixin:
         new = fresh('rev', arr.sort())
         i = z3.Int('i!r')
         st.assume(z3.ForAll([i], z3.Select(new, i) == z3.Select(arr, n - 1 - i), patterns=[z3.Select(new, i)]))
+        st.assume(z3.ForAll([i], z3.Select(arr, i) == z3.Select(new, n - 1 - i), patterns=[z3.Select(arr, i)]))
         yield st, self.new_cont(v.t, st, v.t.mk(n, new))
 
     def bi_sorted(self, args, kw, st, frame, node):
@@ -458,6 +467,9 @@ class LibMixin:
         default = args[1] if len(args) > 1 else NoneV()
         has = self.d_has(c, k, st)
         vt = self.d_valtype(c)
+        if isinstance(default, Cont) and getattr(default, 'empty_literal', False) and vt.is_container \
+                and default.t.kind != 'list':
+            self.term(default, st, vt)     # an untyped {} default takes the dict's value type
         if st.spec:
             item = self.d_item(c, k, st)
             yield st, self.merge_vals(has, item, default, st)
@@ -752,16 +764,18 @@ class LibMixin:
             s = st.fork()
             s.pc = st.pc
             bvs = []
-            for part in decl.split(','):
-                n, ts = part.split(':')
+            from .core import split_top
+            parts = split_top(decl)
+            for part in parts:
+                n, ts = part.split(':', 1)
                 t = parse_type(ts.strip())
                 bv = z3.Const(n.strip() + '!q', t.sort())
                 bvs.append(bv)
                 s.bound[n.strip()] = self.wrap(bv, t)
             body = self.truth(self.ev1(lam.body if isinstance(lam, ast.Lambda) else lam, s, frame), s)
             guards = []
-            for bv, part in zip(bvs, decl.split(',')):
-                t = parse_type(part.split(':')[1].strip())
+            for bv, part in zip(bvs, parts):
+                t = parse_type(part.split(':', 1)[1].strip())
                 if t.kind == 'ref' and t.cls != 'object':
                     guards.append(self.ctx.shapes.isinstance_term(bv, t.cls))
             if name == 'forall':
